@@ -17,6 +17,7 @@ import (
 type gateCtl struct {
 	mu      sync.Mutex
 	active  bool
+	syncGate bool // the gated call is a plain DB.Sync: park at sync.pagemap (and nowhere else)
 	arrived chan string
 	release chan struct{}
 }
@@ -34,7 +35,7 @@ func init() {
 				return
 			}
 		}
-		if len(args) == 0 || !stopAt[ev] {
+		if len(args) == 0 || (!stopAt[ev] && ev != "sync.pagemap") {
 			return
 		}
 		path, ok := args[0].(string)
@@ -47,7 +48,7 @@ func init() {
 		}
 		g := v.(*gateCtl)
 		g.mu.Lock()
-		act := g.active
+		act := g.active && (g.syncGate == (ev == "sync.pagemap"))
 		g.mu.Unlock()
 		if !act {
 			return
@@ -65,13 +66,19 @@ type gatedCall struct {
 }
 
 func (r *Runner) gateStart(mode string) string {
-	g := &gateCtl{active: true, arrived: make(chan string), release: make(chan struct{})}
+	g := &gateCtl{active: true, syncGate: mode == "SYNC", arrived: make(chan string), release: make(chan struct{})}
 	gates.Store(r.dbPath, g)
 	ctx, cancel := context.WithCancel(r.ctx)
 	c := &gatedCall{g: g, done: make(chan error, 1), cancel: cancel}
 	r.gated = c
 	ls := r.ls
-	go func() { c.done <- ls.Checkpoint(ctx, mode) }()
+	go func() {
+		if mode == "SYNC" { // a plain sync parked between building its page map and reading the page data (SyStart / CkStep)
+			c.done <- ls.Sync(ctx)
+			return
+		}
+		c.done <- ls.Checkpoint(ctx, mode)
+	}()
 	return r.gateWait()
 }
 
